@@ -5,8 +5,17 @@ Extracted (and re-extracted on every run):
     (guardsReadSlot / guardsWriteSlot) -- the hypothesis of `every_op_completes_or_errors`;
   * the per-syscall limit of a chunked read (chunkReadLimit);
   * whether datagram server sockets are registered for write readiness in the epoll backend (dgramRegisteredForWrite).
+  * the case groups of `switch (event)` in ev_callback_read / ev_callback_write (posix branch): which events run the read loop /
+    the error arm / schedule nil on close, which events try the write / raise "stream err" / "stream hup" / "stream closed"
+    (readLoopEvents ... writeCloseEvents; structural split at the case labels as tools/gen/net.py does).
 Shape assertions (ExtractError when the statement the Lean model mirrors is no longer there): the write offset
 update, the write completion test, the read exit condition, the end-of-stream rule, the close notifications.
+
+Tolerance: the statements are matched on a NORMALISED text of each function -- comments stripped, `(void) x;` statements dropped,
+and every parameter / local that plays a role in the mirrored statements ALPHA-RENAMED to a canonical name by its role (the
+variable initialised from state->bytes_left is `bytes_left`, the one assigned from read() is `nread`, the one initialised from
+stream->read_fiber is `rf`, ...; occurrences after `->` / `.` are member names and are left alone).  A renamed local, an added
+comment or cast, or braces around a single statement do not change the result; a changed statement does.
 """
 import re
 from .csrc import ExtractError, read, strip_comments, match_brace
@@ -20,16 +29,126 @@ def _body(src, sig_rx, name):
     return src[i:match_brace(src, i)]
 
 
+def _canon(body, roles, fname):
+    """alpha-rename by role: roles = [(regex whose group 1 captures the identifier playing the role, canonical name)]"""
+    for rx, canon in roles:
+        m = re.search(rx, body, re.S)
+        if not m:
+            raise ExtractError("ev.c: %s: the variable playing the role `%s` was not found: /%s/" % (fname, canon, rx))
+        name = m.group(1)
+        if name == canon:
+            continue
+        if re.search(r"(?<![>.\w])%s\b(?!\s*\()" % re.escape(canon), body):
+            raise ExtractError("ev.c: %s: `%s` plays the role of `%s` but `%s` is also in use" % (fname, name, canon, canon))
+        body = re.sub(r"(?<![>.\w])%s\b" % re.escape(name), canon, body)
+    return body
+
+
+def _normalise(body):
+    """drop `(void) x;` statements and braces around a single simple statement after if / else"""
+    body = re.sub(r"\(\s*void\s*\)\s*\w+\s*;", "", body)
+    return body
+
+
+PARAMS = r"\(\s*JanetFiber\s*\*\s*%s\s*,\s*JanetAsyncEvent\s+%s\s*\)"
+
+
 def _need(body, rx, what):
     if not re.search(rx, body, re.S):
         raise ExtractError("ev.c: expected statement not found (%s): /%s/" % (what, rx))
+
+
+EVENTS = ["INIT", "MARK", "DEINIT", "CLOSE", "ERR", "HUP", "READ", "WRITE", "COMPLETE", "FAILED"]
+
+
+def _groups(posix, fname):
+    """case groups of the posix branch (text from `#else` to the end of the function): [(labels, normalised statements)]"""
+    from .net import _norm
+    t = re.sub(r"^#else", "", posix)
+    t = re.sub(r"#endif\s*\}\s*\}\s*$", "", t)          # end of the posix branch, of the switch and of the function
+    t = re.sub(r"#\s*(?:ifdef|ifndef|if|else|elif|endif)[^\n]*", "", t)
+    for lab in set(re.findall(r"\bgoto\s+(\w+)\s*;", t)):
+        t = re.sub(r"(?<![>.\w])%s\s*:" % re.escape(lab), "", t)
+    lab_rx = re.compile(r"\s*(?:case\s+JANET_ASYNC_EVENT_(\w+)|(default))\s*:")
+    depth, k, labels_at = 0, 0, []
+    while k < len(t):
+        c = t[k]
+        if c == "{":
+            depth += 1
+        elif c == "}":
+            depth -= 1
+        elif depth == 0 and (t.startswith("case", k) or t.startswith("default", k)) and (k == 0 or not (t[k - 1].isalnum() or t[k - 1] == "_")):
+            mm = lab_rx.match(t, k)
+            if mm:
+                labels_at.append((k, mm.end(), mm.group(1) or "default"))
+                k = mm.end()
+                continue
+        k += 1
+    if not labels_at:
+        raise ExtractError("%s: no case labels in the posix branch" % fname)
+    groups, cur = [], []
+    for n, (a, b, lab) in enumerate(labels_at):
+        end = labels_at[n + 1][0] if n + 1 < len(labels_at) else len(t)
+        text = _norm(t[b:end])
+        cur.append(lab)
+        if text:
+            while text.startswith("{") and match_brace(text, 0) == len(text):
+                text = _norm(text[1:-1])
+            text = re.sub(r"(\bbreak\s*;\s*)+$", "break;", _norm(re.sub(r"\}\s*break\s*;\s*$", "} break;", text)))
+            groups.append((cur, text))
+            cur = []
+    if cur:
+        raise ExtractError("%s: trailing labels %s without statements" % (fname, cur))
+    for g, _ in groups:
+        for l in g:
+            if l != "default" and l not in EVENTS:
+                raise ExtractError("%s: unknown event %s" % (fname, l))
+    return groups
+
+
+def _case_groups_read(posix):
+    out = {"readLoopEvents": [], "readErrEvents": []}
+    for labs, text in _groups(posix, "ev_callback_read"):
+        if re.search(r"\bread\s*\(\s*stream->handle", text) and "goto read_more" in text:
+            out["readLoopEvents"] += labs
+        elif re.fullmatch(r"if\s*\(\s*state->bytes_read\s*\)\s*\{?\s*janet_schedule\s*\(\s*fiber\s*,\s*janet_wrap_buffer\s*\(\s*state->buf\s*\)\s*\)\s*;\s*\}?\s*else\s*\{?\s*"
+                          r"janet_schedule\s*\(\s*fiber\s*,\s*janet_wrap_nil\s*\(\s*\)\s*\)\s*;\s*\}?\s*(?:stream->read_fiber\s*=\s*NULL\s*;\s*)?janet_async_end\s*\(\s*fiber\s*\)\s*;\s*\}?\s*break\s*;", text):
+            out["readErrEvents"] += labs
+        else:
+            raise ExtractError("ev_callback_read: statements of the posix case group %s not recognised: %s" % (labs, text[:200]))
+    if "default" in out["readLoopEvents"] + out["readErrEvents"]:
+        raise ExtractError("ev_callback_read: `default:` inside the posix branch")
+    return out
+
+
+def _case_groups_write(wposix):
+    out = {"writeTryEvents": [], "writeErrEvents": [], "writeHupEvents": []}
+    cancel = r"janet_cancel\s*\(\s*fiber\s*,\s*janet_cstringv\s*\(\s*\"%s\"\s*\)\s*\)\s*;\s*janet_async_end\s*\(\s*fiber\s*\)\s*;\s*break\s*;"
+    for labs, text in _groups(wposix, "ev_callback_write"):
+        if re.search(r"\bwrite\s*\(\s*stream->handle", text):
+            out["writeTryEvents"] += labs
+        elif re.fullmatch(cancel % "stream err", text):
+            out["writeErrEvents"] += labs
+        elif re.fullmatch(cancel % "stream hup", text):
+            out["writeHupEvents"] += labs
+        else:
+            raise ExtractError("ev_callback_write: statements of the posix case group %s not recognised: %s" % (labs, text[:200]))
+    return out
 
 
 def extract(tree):
     src = strip_comments(read(tree, "src/core/ev.c"))
     facts = {}
     # --- janet_async_start_fiber: slot guard
+    sig = re.search(r"void\s+janet_async_start_fiber\s*\(\s*JanetFiber\s*\*\s*(\w+)\s*,\s*JanetStream\s*\*\s*(\w+)\s*,\s*JanetAsyncMode\s+(\w+)\s*,"
+                    r"\s*JanetEVCallback\s+(\w+)\s*,\s*void\s*\*\s*(\w+)\s*\)\s*\{", src)
+    if not sig:
+        raise ExtractError("ev.c: signature of janet_async_start_fiber not recognised")
     b = _body(src, r"void\s+janet_async_start_fiber\s*\([^)]*\)\s*\{", "janet_async_start_fiber")
+    for name, canon in zip(sig.groups(), ("fiber", "stream", "mode", "callback", "state")):
+        if name != canon:
+            b = re.sub(r"(?<![>.\w])%s\b" % re.escape(name), canon, b)
+    b = _normalise(b)
     mr = re.search(r"stream->read_fiber\s*=\s*fiber\s*;", b)
     mw = re.search(r"stream->write_fiber\s*=\s*fiber\s*;", b)
     if not mr or not mw:
@@ -55,24 +174,53 @@ def extract(tree):
         rest = head[k + 1:].lstrip()
         blk = rest[:match_brace(rest, 0)] if rest.startswith("{") else rest.split(";")[0]
         if "janet_panic" in blk:
-            if re.search(r"stream->read_fiber", cond) and "JANET_ASYNC_LISTEN_READ" in cond:
-                guards["read"] = True
-            if re.search(r"stream->write_fiber", cond) and "JANET_ASYNC_LISTEN_WRITE" in cond:
-                guards["write"] = True
+            # each disjunct that tests a mode bit must also test that direction's slot for another, still waiting fiber
+            for dj in re.split(r"\|\|", cond):
+                if "JANET_ASYNC_LISTEN_READ" in dj and re.search(r"stream->read_fiber\s*!=\s*fiber", dj) and "stream->read_fiber->ev_callback" in dj:
+                    guards["read"] = True
+                if "JANET_ASYNC_LISTEN_WRITE" in dj and re.search(r"stream->write_fiber\s*!=\s*fiber", dj) and "stream->write_fiber->ev_callback" in dj:
+                    guards["write"] = True
     facts["guardsReadSlot"] = guards["read"]
     facts["guardsWriteSlot"] = guards["write"]
     _need(b, r"callback\s*\(\s*fiber\s*,\s*JANET_ASYNC_EVENT_INIT\s*\)", "INIT event delivered by async_start")
     # --- janet_async_end clears the slots
     e = _body(src, r"void\s+janet_async_end\s*\([^)]*\)\s*\{", "janet_async_end")
-    _need(e, r"ev_stream->read_fiber\s*==\s*fiber\s*\)\s*\{\s*fiber->ev_stream->read_fiber\s*=\s*NULL", "async_end clears read slot")
-    _need(e, r"ev_stream->write_fiber\s*==\s*fiber\s*\)\s*\{\s*fiber->ev_stream->write_fiber\s*=\s*NULL", "async_end clears write slot")
+    me = re.search(r"void\s+janet_async_end\s*\(\s*JanetFiber\s*\*\s*(\w+)\s*\)", src)
+    if not me:
+        raise ExtractError("ev.c: signature of janet_async_end not recognised")
+    e = _normalise(re.sub(r"(?<![>.\w])%s\b" % re.escape(me.group(1)), "fiber", e))
+    _need(e, r"ev_stream->read_fiber\s*==\s*fiber\s*\)\s*\{?\s*fiber->ev_stream->read_fiber\s*=\s*NULL", "async_end clears read slot")
+    _need(e, r"ev_stream->write_fiber\s*==\s*fiber\s*\)\s*\{?\s*fiber->ev_stream->write_fiber\s*=\s*NULL", "async_end clears write slot")
     # --- janet_stream_close notifies both slots
-    c = _body(src, r"void\s+janet_stream_close\s*\(\s*JanetStream\s*\*\s*stream\s*\)\s*\{", "janet_stream_close")
+    mc = re.search(r"void\s+janet_stream_close\s*\(\s*JanetStream\s*\*\s*(\w+)\s*\)\s*\{", src)
+    if not mc:
+        raise ExtractError("ev.c: definition of janet_stream_close not found")
+    c = _body(src, r"void\s+janet_stream_close\s*\(\s*JanetStream\s*\*\s*\w+\s*\)\s*\{", "janet_stream_close")
+    c = re.sub(r"(?<![>.\w])%s\b" % re.escape(mc.group(1)), "stream", c)
+    c = _normalise(_canon(c, [(r"JanetFiber\s*\*\s*(\w+)\s*=\s*stream->read_fiber\s*;", "rf"),
+                              (r"JanetFiber\s*\*\s*(\w+)\s*=\s*stream->write_fiber\s*;", "wf")], "janet_stream_close"))
     _need(c, r"rf->ev_callback\s*\(\s*rf\s*,\s*JANET_ASYNC_EVENT_CLOSE\s*\)", "close notifies reader")
     _need(c, r"wf->ev_callback\s*\(\s*wf\s*,\s*JANET_ASYNC_EVENT_CLOSE\s*\)", "close notifies writer")
     # --- read state machine (posix branch)
     r = _body(src, r"void\s+ev_callback_read\s*\([^)]*\)\s*\{", "ev_callback_read")
+    mr = re.search(r"void\s+ev_callback_read\s*" + PARAMS % (r"(\w+)", r"(\w+)"), src)
+    if not mr:
+        raise ExtractError("ev.c: signature of ev_callback_read not recognised")
+    for name, canon in zip(mr.groups(), ("fiber", "event")):
+        if name != canon:
+            r = re.sub(r"(?<![>.\w])%s\b" % re.escape(name), canon, r)
+    r = _canon(r, [(r"JanetStream\s*\*\s*(\w+)\s*=\s*fiber->ev_stream\s*;", "stream"),
+                   (r"StateRead\s*\*\s*(\w+)\s*=\s*\(\s*StateRead\s*\*\s*\)\s*fiber->ev_state\s*;", "state")], "ev_callback_read")
     posix = r[r.index("#else"):] if "#else" in r else r
+    head = r[:len(r) - len(posix)]
+    posix = _normalise(_canon(posix, [
+        (r"JanetBuffer\s*\*\s*(\w+)\s*=\s*state->buf\s*;", "buffer"),
+        (r"int32_t\s+(\w+)\s*=\s*state->bytes_left\s*;", "bytes_left"),
+        (r"int32_t\s+(\w+)\s*=\s*state->is_chunk\s*\?", "read_limit"),
+        (r"(?<![>.\w])(\w+)\s*=\s*read\s*\(\s*stream->handle", "nread"),
+        (r"goto\s+(\w+)\s*;", "read_more")], "ev_callback_read"))
+    r = _normalise(head) + posix
+    facts.update(_case_groups_read(posix))
     m = re.search(r"read_limit\s*=\s*state->is_chunk\s*\?\s*\(\s*bytes_left\s*>\s*(\d+)\s*\?\s*(\d+)\s*:\s*bytes_left\s*\)\s*:\s*bytes_left\s*;", posix)
     if not m or m.group(1) != m.group(2):
         raise ExtractError("ev_callback_read: read_limit expression not recognised")
@@ -83,20 +231,40 @@ def extract(tree):
     _need(posix, r"buffer->count\s*\+=\s*nread\s*;\s*bytes_left\s*-=\s*nread\s*;\s*state->bytes_left\s*=\s*bytes_left\s*;", "count / bytes_left update")
     _need(posix, r"if\s*\(\s*!state->is_chunk\s*\|\|\s*bytes_left\s*==\s*0\s*\|\|\s*nread\s*==\s*0\s*\)", "read exit condition")
     _need(posix, r"goto\s+read_more\s*;", "chunk loop")
-    _need(posix, r"errno\s*==\s*EAGAIN\s*\|\|\s*errno\s*==\s*EWOULDBLOCK\s*\)\s*\{\s*break\s*;", "would-block keeps the read pending")
+    _need(posix, r"errno\s*==\s*EAGAIN\s*\|\|\s*errno\s*==\s*EWOULDBLOCK\s*\)\s*\{?\s*break\s*;", "would-block keeps the read pending")
     _need(r, r"case\s+JANET_ASYNC_EVENT_CLOSE\s*:\s*janet_schedule\s*\(\s*fiber\s*,\s*janet_wrap_nil\s*\(\s*\)\s*\)\s*;\s*janet_async_end\s*\(\s*fiber\s*\)", "read CLOSE -> nil")
     # --- write state machine (posix branch)
     w = _body(src, r"void\s+ev_callback_write\s*\([^)]*\)\s*\{", "ev_callback_write")
+    mw2 = re.search(r"void\s+ev_callback_write\s*" + PARAMS % (r"(\w+)", r"(\w+)"), src)
+    if not mw2:
+        raise ExtractError("ev.c: signature of ev_callback_write not recognised")
+    for name, canon in zip(mw2.groups(), ("fiber", "event")):
+        if name != canon:
+            w = re.sub(r"(?<![>.\w])%s\b" % re.escape(name), canon, w)
+    w = _canon(w, [(r"JanetStream\s*\*\s*(\w+)\s*=\s*fiber->ev_stream\s*;", "stream"),
+                   (r"StateWrite\s*\*\s*(\w+)\s*=\s*\(\s*StateWrite\s*\*\s*\)\s*fiber->ev_state\s*;", "state")], "ev_callback_write")
     wposix = w[w.rindex("#else"):]
+    whead = w[:len(w) - len(wposix)]
+    wposix = _normalise(_canon(wposix, [
+        (r"(?<![>.\w])(\w+)\s*=\s*state->start\s*;", "start"),
+        (r"JanetBuffer\s*\*\s*(\w+)\s*=\s*state->src\.buf\s*;", "buffer"),
+        (r"(?<![>.\w])(\w+)\s*=\s*buffer->data\s*;", "bytes"),
+        (r"(?<![>.\w])(\w+)\s*=\s*buffer->count\s*;", "len"),
+        (r"(?<![>.\w])(\w+)\s*=\s*write\s*\(\s*stream->handle", "nwrote"),
+        (r"int32_t\s+(\w+)\s*=\s*len\s*-\s*start\s*;", "nbytes"),
+        (r"void\s*\*\s*(\w+)\s*=\s*state->dest_abst\s*;", "dest_abst")], "ev_callback_write"))
+    w = _normalise(whead) + wposix
+    facts.update(_case_groups_write(wposix))
     _need(wposix, r"start\s*=\s*state->start\s*;", "resume offset read")
     _need(wposix, r"if\s*\(\s*start\s*<\s*len\s*\)\s*\{\s*int32_t\s+nbytes\s*=\s*len\s*-\s*start\s*;", "remaining length")
     _need(wposix, r"write\s*\(\s*stream->handle\s*,\s*bytes\s*\+\s*start\s*,\s*nbytes\s*\)", "write from offset")
     _need(wposix, r"send\s*\(\s*stream->handle\s*,\s*bytes\s*\+\s*start\s*,\s*nbytes\s*,", "send from offset")
-    _need(wposix, r"if\s*\(\s*nwrote\s*>\s*0\s*\)\s*\{\s*start\s*\+=\s*nwrote\s*;\s*\}\s*else\s*\{\s*start\s*=\s*len\s*;", "offset advance")
+    _need(wposix, r"if\s*\(\s*nwrote\s*>\s*0\s*\)\s*\{?\s*start\s*\+=\s*nwrote\s*;\s*\}?\s*else\s*\{?\s*start\s*=\s*len\s*;", "offset advance")
     _need(wposix, r"state->start\s*=\s*start\s*;\s*if\s*\(\s*start\s*>=\s*len\s*\)\s*\{\s*janet_schedule\s*\(\s*fiber\s*,\s*janet_wrap_nil", "completion test")
     _need(wposix, r"if\s*\(\s*nwrote\s*==\s*0\s*&&\s*!dest_abst\s*\)\s*\{\s*janet_cancel", "zero-length write is a disconnect")
     _need(w, r"case\s+JANET_ASYNC_EVENT_CLOSE\s*:\s*janet_cancel\s*\(\s*fiber\s*,\s*janet_cstringv\s*\(\s*\"stream closed\"\s*\)\s*\)\s*;\s*janet_async_end", "write CLOSE -> error")
     wg = _body(src, r"void\s+janet_ev_write_generic\s*\([^)]*\)\s*\{", "janet_ev_write_generic")
+    wg = _canon(wg, [(r"StateWrite\s*\*\s*(\w+)\s*=\s*janet_malloc", "state")], "janet_ev_write_generic")
     _need(wg, r"state->start\s*=\s*0\s*;", "initial offset 0")
     # --- epoll registration of datagram servers
     if "JANET_EV_EPOLL" in src:
@@ -123,9 +291,21 @@ abbrev guardsWriteSlot : Bool := %s
 abbrev chunkReadLimit : Nat := %d
 /-- epoll backend: datagram server sockets are registered for EPOLLOUT -/
 abbrev dgramRegisteredForWrite : Bool := %s
+/-- ev_callback_read (posix): events whose case group is the `read_more` loop -- %s   (numbers: position in INIT MARK DEINIT CLOSE ERR HUP READ WRITE COMPLETE FAILED) -/
+abbrev readLoopEvents : List Nat := %s
+/-- ev_callback_read (posix): events whose case group is the error arm (buffer if something was read, else nil) -- %s -/
+abbrev readErrEvents : List Nat := %s
+/-- ev_callback_write (posix): events whose case group tries the write -- %s -/
+abbrev writeTryEvents : List Nat := %s
+/-- ev_callback_write (posix): events that raise "stream err" -- %s -/
+abbrev writeErrEvents : List Nat := %s
+/-- ev_callback_write (posix): events that raise "stream hup" -- %s -/
+abbrev writeHupEvents : List Nat := %s
 
 end JanetModel.Gen.Stream
-""" % (b(f["guardsReadSlot"]), b(f["guardsWriteSlot"]), f["chunkReadLimit"], b(f["dgramRegisteredForWrite"]))
+""" % ((b(f["guardsReadSlot"]), b(f["guardsWriteSlot"]), f["chunkReadLimit"], b(f["dgramRegisteredForWrite"])) +
+       tuple(x for k in ("readLoopEvents", "readErrEvents", "writeTryEvents", "writeErrEvents", "writeHupEvents")
+             for x in (" ".join(sorted(f[k], key=EVENTS.index)), "[" + ", ".join(str(EVENTS.index(e)) for e in sorted(f[k], key=EVENTS.index)) + "]")))
 
 
 if __name__ == "__main__":
